@@ -1,3 +1,4 @@
 import VarmqVerif.Spec.Obs
 import VarmqVerif.Spec.Props
 import VarmqVerif.Spec.Props2
+import VarmqVerif.Spec.Props3
